@@ -654,7 +654,14 @@ func (c *codegen) call2(k fnKey, recv ast.Expr, x *ast.CallExpr) ([]string, []gt
 			}
 			recvVar, recvPath = c.path(recv)
 			c.checkRangeTarget(recvVar, recvPath, x)
-			c.checkAliasWrite(recvVar, recvPath, x, "call of a method that mutates")
+			// code_parse.go: a method whose element-write footprint is known is judged by it
+			if fp, known := c.elemFootprint(k); known && c.phase5 {
+				for _, q := range fp {
+					c.checkAliasWrite(recvVar, append(append([]string{}, recvPath...), q...), x, "call of a method that writes elements of")
+				}
+			} else {
+				c.checkAliasWrite(recvVar, recvPath, x, "call of a method that mutates")
+			}
 			c.checkRecvMutation(rootIdent(recv), x)
 		}
 		r, rt := c.expr(recv, gtype{}, false)
@@ -1561,7 +1568,11 @@ func (c *codegen) retValue(vals []string) []string {
 	}
 	comps = append(comps, vals...)
 	if len(comps) == 0 {
-		c.fail(f.fd, "function without result and without effect")
+		// (a function that writes elements only through a LOCAL slice variable ends up here: slices are values in
+		// the model, so a write through a second reference is lost — not expressible.  The plain copy of a slice
+		// FIELD with a stable header, `t := f.table; t[i] = e`, is a second name of the field and is substituted
+		// by the normalisation pass, code_desugar.go "local copy of a slice field"; a re-sliced copy is not.)
+		c.fail(f.fd, "function without result and without effect (writes through a local copy of a slice are not expressible in the value model, unless the copy is a plain `v := r.field` with a stable header: code_desugar.go)")
 	}
 	t := tupleVal(comps)
 	if f.sig.monadic {
